@@ -690,6 +690,16 @@ def probe_type(ck, cproc, t, tg):
     return None
 
 
+def severity(ev):
+    """2: the real output fails the property's predicate; 1: it only differs from the model"""
+    if ev is None:
+        return 0
+    det = ev.get("detail")
+    if ev["kind"] in ("diff", "sig-diff") and not (isinstance(det, dict) and det.get("not_ok")):
+        return 1
+    return 2
+
+
 def shrink_type(ck, cproc, t, tg, budget=150):
     best = probe_type(ck, cproc, t, tg)
     if best is None:
@@ -704,7 +714,7 @@ def shrink_type(ck, cproc, t, tg, budget=150):
             if n_leaves(v) == 0:
                 continue
             ev = probe_type(ck, cproc, v, tg)
-            if ev is not None:
+            if ev is not None and severity(ev) >= severity(best):
                 t, best, progress = v, ev, True
                 break
     return t, best
@@ -789,6 +799,9 @@ def run_type_batches(ck, cproc, all_types, label, oracles=True, batch=60):
 # sig = dict(kind='def'|'call'|'vadef', ret=type|None, params=[type], variadic=bool, args=[type], vaargs=[scalar])
 # types here: ('sc', name) | ('arr', type, n) | ('ref', tid)  (by-value use of pool type tid)
 VAARG_TYPES = ["int", "uint", "long", "ulong", "llong", "ullong", "double", "voidp", "charpp", "Ea", "Eb", "Ec", "Ed"]
+# class with which a value of the type is fetched from a va_list (word, long word, double)
+VAARG_CLASS = {"int": "w", "uint": "w", "long": "l", "ulong": "l", "llong": "l", "ullong": "l", "double": "d", "voidp": "l",
+               "charpp": "l", "Ea": "w", "Eb": "w", "Ec": "l", "Ed": "l"}
 ARITH = [k for k in MAIN_SCALARS if SC[k][5] or k in FLOATS]
 
 
@@ -1027,9 +1040,15 @@ def sig_batch(job):
             kind, det = compare_sig(real, dl[a], sg, defs)
             if kind in ("ok", "subword") and sg["kind"] == "vadef":
                 want = [x[3:] if x.startswith("ok ") else x for x in dl[a + 1:a + n]]
-                if got["vaargs"] != want or got["vastart"] != 1:
+                exp = [VAARG_CLASS[v] for v in sg["vaargs"]]
+                bad = None
+                if got["vaargs"] != exp:
+                    bad = ["va_arg fetches with classes %s, the C types demand %s" % (got["vaargs"], exp)]
+                elif got["vastart"] != 1:
+                    bad = ["%d vastart instructions for one va_start" % got["vastart"]]
+                if got["vaargs"] != want or bad:
                     kind, det = "diff", {"real": real, "vaarg_real": got["vaargs"], "vaarg_model": want,
-                                         "vastart": got["vastart"], "not_ok": None}
+                                         "vastart": got["vastart"], "not_ok": bad}
             counts["sig-" + kind] = counts.get("sig-" + kind, 0) + 1
             if kind != "ok":
                 events.append({"kind": "sig-" + kind, "k": k, "target": tg, "detail": det})
@@ -1122,7 +1141,7 @@ def handle_sig_event(ck, cproc, sg, pool, ev):
                 if budget <= 0:
                     break
                 e2 = probe_sig(ck, cproc, v, pool, tg)
-                if e2 is not None:
+                if e2 is not None and severity(e2) >= severity(best):
                     sg, best, progress = v, e2, True
                     break
     rp = {"kind": "signature", "target": tg, "program": sig_program(k, sg, pool), "drv": sig_drv(tg, sg, pool),
@@ -1236,6 +1255,24 @@ def run_fixed_probes(ck, cproc):
     return n
 
 
+def run_replay(ck, cproc):
+    """re-run the program of a replay file on its target and show what the real compiler and the model say"""
+    rp = json.load(open(ck.replay))
+    p = os.path.join(ck.scratch(), "replay.c")
+    open(p, "w").write(rp.get("program", ""))
+    rc, out, err = run_tool([cproc, "-t", rp.get("target", TARGETS[0])], p)
+    print("cproc-qbe -t %s: rc=%d %s" % (rp.get("target"), rc, err.strip()[-300:]))
+    for ln in out.splitlines():
+        if ln.startswith(("type ", "function ")) or "call $" in ln or " vaarg " in ln:
+            print("  " + ln.strip())
+    ops = rp.get("drv")
+    if isinstance(ops, str):
+        ops = ["type %s %s" % (rp.get("target", TARGETS[0]), ops)]
+    for op in ops or []:
+        print("  model/spec: %s\n    -> %s" % (op[:200], ck.run_drv(op + "\n")[0][:600]))
+    ck.count(("replay", ck.replay))
+
+
 def totuple(x):
     return tuple(totuple(y) for y in x) if isinstance(x, list) else x
 
@@ -1281,6 +1318,8 @@ def run(ck):
     cproc = ck.build_cproc_qbe()
     ck.kb = {}
     rng = ck.rng
+    if ck.replay:
+        return run_replay(ck, cproc)
     quick = ck.quick
     # 1. corpus: fixed-defect witnesses, then the recorded witnesses and boundary shapes
     cfile = os.path.join(common.VERIF, "corpus", "C08", "witnesses.json")
